@@ -26,7 +26,7 @@ def streams(*specs):
 
 PROPS = {
     "C12": {
-        "streams": conn_streams(3000, 60000),
+        "streams": conn_streams(3000, 60000, extra=[("client", 3000, 60000), ("e2e", 400, 8000)]),
         "rule": "handler scripts issuing error replies with names from a grammar with near-misses of the reserved namespace x JSON parameters (incl. none); non-trivial = at least 2 calls or a script with at least 2 actions",
         "trusted_base": [JSON_TB],
         "assumptions": [],
